@@ -274,9 +274,10 @@ Section EntryPoints.
     | Found None _ _ _ => EP None
     | LPanic => EPPanic | LOutOfFuel => EPOutOfFuel
     end.
-  (* Txn.Reverse has no cmp.Or(path, "/") *)
+  (* Txn.Reverse defaults the empty path like Router.Reverse (txn.go, since the fix f49b881:
+     `cmp.Or(path, "/")`); before that fix it passed the path through unchanged *)
   Definition Txn_Reverse (r : roots) (method host path : bytes) (tp0 : list kv) : epres :=
-    match tree_lookup r method host path true tp0 with
+    match tree_lookup r method host (or_slash path) true tp0 with
     | Found (Some n) t _ _ => EP (Some (n, t))
     | Found None _ _ _ => EP None
     | LPanic => EPPanic | LOutOfFuel => EPOutOfFuel
@@ -353,7 +354,7 @@ Section EntryPoints.
      (defaulted) path, whatever stale state the pooled contexts carry *)
   Theorem entry_points_agree_lemma : forall r method host path pattern tp0 tp1,
     Router_Reverse r method host path tp0 = Router_Lookup r method host (or_slash path) tp1 /\
-    Txn_Reverse r method host path tp0 = Txn_Lookup r method host path tp1 /\
+    Txn_Reverse r method host path tp0 = Txn_Lookup r method host (or_slash path) tp1 /\
     ServeHTTP_direct r method host path tp0 = direct_only (Router_Lookup r method host path tp1) /\
     Iter_Reverse1 r method host path tp0 = tsr_opt_only (Router_Lookup r method host (or_slash path) tp1) /\
     Router_Route r method pattern tp0 =
@@ -368,7 +369,7 @@ Section EntryPoints.
     destruct (split_host_path pat) as [ph pp]; cbn [fst snd].
     repeat split.
     - ep_tac r m h (or_slash p) tp0 tp1.
-    - ep_tac r m h p tp0 tp1.
+    - ep_tac r m h (or_slash p) tp0 tp1.
     - assert (HP : proj (tree_lookup r m h p false tp0) = proj (tree_lookup r m h p false tp1)).
       { rewrite <- (tree_lookup_proj r m h p tp0 tp0). apply tree_lookup_proj. }
       destruct (tree_lookup r m h p false tp0) as [[?|] [|] ? ?| |],
@@ -385,12 +386,15 @@ Section EntryPoints.
   Qed.
 End EntryPoints.
 
-(* Router.Reverse defaults the empty path to "/", Txn.Reverse does not: on the empty path the two
-   disagree (direct match of "/" vs. trailing-slash match of "/").  For a non-empty path they are
-   the same function. *)
+(* Router.Reverse and Txn.Reverse both default the empty path to "/": they are the same function of
+   the roots value (fix f49b881; the pre-fix Txn.Reverse passed "" through and answered a trailing-slash
+   match of "/" where the router answered a direct one) *)
+Lemma Router_Txn_Reverse_eq fuel shp r m h p tp0 :
+  Router_Reverse fuel shp r m h p tp0 = Txn_Reverse fuel shp r m h p tp0.
+Proof. reflexivity. Qed.
 Lemma Router_Txn_Reverse_nonempty fuel shp r m h p tp0 : p <> [] ->
   Router_Reverse fuel shp r m h p tp0 = Txn_Reverse fuel shp r m h p tp0.
-Proof. intros H; unfold Router_Reverse, Txn_Reverse, or_slash; destruct p; [congruence|reflexivity]. Qed.
+Proof. intros _; apply Router_Txn_Reverse_eq. Qed.
 
 (* ---------- examples (non-vacuity) ---------- *)
 Definition mk_ri (pat : string) (pslen hs : nat) (id : N) : rinfo :=
@@ -491,11 +495,11 @@ Proof.
   eexists; split; vm_compute; reflexivity.
 Qed.
 
-(* witness: with GET / registered, Reverse(GET, "", "") is a direct match on the router and a
-   trailing-slash match on a transaction *)
+(* regression witness of the fixed defect: with GET / registered, Reverse(GET, "", "") is a direct match
+   on the router AND on a transaction (before f49b881 the transaction answered a trailing-slash match) *)
 Definition ex_slash_roots : roots := Eval vm_compute in ins_all [mk_ri "/" 0 0 1].
-Theorem Txn_Reverse_empty_path_differs :
+Theorem Txn_Reverse_empty_path_agrees :
   exists r m h n,
     Router_Reverse ex_fuel ex_strip r m h [] [] = EP (Some (n, false)) /\
-    Txn_Reverse ex_fuel ex_strip r m h [] [] = EP (Some (n, true)).
+    Txn_Reverse ex_fuel ex_strip r m h [] [] = EP (Some (n, false)).
 Proof. exists ex_slash_roots, m_get, [], (Node ["/"] (Some {| rpat := ["/"]; rid := 1 |}) []). split; vm_compute; reflexivity. Qed.
